@@ -130,7 +130,8 @@ func execGreedy(g *graph.DGraph, params graph.Params) {
 
 	// reverse edges that point right
 	for _, n := range g.Nodes {
-		for _, e := range n.Out {
+		// Reverse removes e from n.Out, so range over a copy
+		for _, e := range slices.Clone(n.Out) {
 			if p.arcdiag[n] > p.arcdiag[e.To] {
 				e.Reverse()
 			}
